@@ -60,6 +60,8 @@ structure GlifGuard (g : Glif.Glyph) : Prop where
   libStable : Glif.reindentDict f.indent g.lib = g.lib
   note : ∀ n, g.note = some n → Glif.trimText n = n ∧ n ≠ []
   advance : (Glif.isNormal g.width = true ∨ g.width = 0) ∧ (Glif.isNormal g.height = true ∨ g.height = 0)
+  /-- no contour without points (the writer emits `<contour></contour>`, the parser drops it: C02's `keepContours`) -/
+  contoursNonempty : ∀ c, c ∈ g.contours → c.points ≠ []
 
 /-- **the named hypotheses, discharged**: `glyph_rt` by C02 `glif_roundtrip_partial_no_object_libs`
     (itself built on `parse_encode`), `rest_rt` by C13 `entry_points_agree` -/
@@ -69,6 +71,7 @@ def noradLaws (hc : Glif.Codec f rd nc ok) : PartLaws (noradParts f rd) where
   glyph_rt := by
     intro g h
     have := Glif.glif_roundtrip_partial_no_object_libs hc h.valid h.noObjectLibs h.noKey h.libStable h.note h.advance
+      h.contoursNonempty
     simp only [noradParts, this]
   rest_rt := by
     intro r h
